@@ -88,6 +88,10 @@ def ensure(config='default', repo=REPO):
         tag = hashlib.sha256(os.path.abspath(repo).encode()).hexdigest()[:6]
         out = os.path.join(BUILD, 'facts', '%s-%s-%s' % (config, tag, key))
         if os.path.exists(os.path.join(out, '.ok')):
+            try:
+                os.utime(out, None)   # most-recently-used: pruning evicts the oldest directory
+            except OSError:
+                pass
             return out
         if os.path.exists(out):
             shutil.rmtree(out)
@@ -181,7 +185,7 @@ def ensure_fixture():
         lock.close()
 
 
-def _prune(root, keep, max_dirs=8):
+def _prune(root, keep, max_dirs=32):
     ds = [os.path.join(root, d) for d in os.listdir(root)]
     ds = [d for d in ds if os.path.isdir(d) and d != keep]
     ds.sort(key=os.path.getmtime)
